@@ -24,6 +24,9 @@ type c19Step struct {
 	// Rot: struct roots only: this execution's destination type declares the same fields rotated by Rot
 	// (one schema value may serve several Go types; what it did for one must not change what it does for another)
 	Rot int `json:"rot,omitempty"`
+	// SameType: parse: the input is a Go value of the destination's own type, populated from Input (the typed record):
+	// its pointers, slices and nested structs have exactly the types of the destination's
+	SameType bool `json:"sameType,omitempty"`
 }
 
 type c19Case struct {
@@ -95,7 +98,7 @@ func propC19(c c19Case) hh.Verdict {
 	first := map[string]firstRes{}
 	pure := !hasDefCatchPost(c.Root)
 	risky := model.RiskyPosts(c.Root)
-	defaultApplied, nestedInput := false, false
+	defaultApplied, nestedInput, sameType := false, false, false
 	for i, st := range c.Steps {
 		cs := model.Case{Root: c.Root, Input: st.Input, Exec: model.Exec{Mode: st.Mode}}
 		dest := newDest(model.RetaggedStruct(typ, nil, st.Rot), cs, false)
@@ -104,6 +107,12 @@ func propC19(c c19Case) hh.Verdict {
 		before := model.CanonJSON(dest.Elem())
 		if st.Mode == "parse" {
 			in = st.Input.Go()
+			if st.SameType {
+				src := reflect.New(dest.Type().Elem())
+				model.SetFromVal(src.Elem(), st.Input)
+				in = src.Elem().Interface()
+				sameType = true
+			}
 			switch st.Wrap {
 			case "ptr", "ptrptr":
 				if in != nil {
@@ -153,7 +162,9 @@ func propC19(c c19Case) hh.Verdict {
 			obs.dest = model.CanonJSON(dest.Elem())
 		}
 		key := st.Mode + "|" + st.Wrap + "|" + model.JSON(st.Input)
-		if !res.NoIssues() && risky {
+		if st.SameType {
+			// pointer-typed data reaches the coercers as pointers (%v of an address): the result is not a function of the record
+		} else if !res.NoIssues() && risky {
 			// a data-dependent test above a gated PostTransform: order-dependent by the documented gating
 		} else if f, seen := first[key]; seen {
 			if f != obs {
@@ -202,6 +213,9 @@ func propC19(c c19Case) hh.Verdict {
 	if len(env.Owned) > 0 {
 		v.Classes = append(v.Classes, "schema-owned-values")
 	}
+	if sameType {
+		v.Classes = append(v.Classes, "input-of-destination-type")
+	}
 	v.Nontrivial = (defaultApplied && len(env.Owned) > 0) || nestedInput
 	return v
 }
@@ -209,6 +223,10 @@ func propC19(c c19Case) hh.Verdict {
 func genC19(rt *rapid.T, cfg model.GenCfg) c19Case {
 	g := model.NewGen(rt, cfg)
 	root := g.GenNode(cfg.MaxDepth, true)
+	exported := (root.Kind == model.KStruct || root.Kind == model.KSlice) && rapid.IntRange(0, 3).Draw(rt, "exported") == 0
+	if exported {
+		root.ExportKeys() // lets Go structs of the destination's own type serve as input data
+	}
 	root.Number()
 	c := c19Case{Root: root}
 	n := rapid.IntRange(2, 6).Draw(rt, "nsteps")
@@ -227,7 +245,12 @@ func genC19(rt *rapid.T, cfg model.GenCfg) c19Case {
 		if root.Kind == model.KStruct && rapid.IntRange(0, 2).Draw(rt, "rotate") == 0 {
 			st.Rot = rapid.IntRange(1, 3).Draw(rt, "rot")
 		}
-		if mode == "parse" {
+		if mode == "parse" && exported && rapid.Bool().Draw(rt, "sametype") {
+			st.SameType = true
+			if root.Kind == model.KStruct {
+				st.Wrap = rapid.SampledFrom([]string{"", "", "ptr", "ptrptr"}).Draw(rt, "wrap")
+			}
+		} else if mode == "parse" {
 			st.Input, _ = g.Render(root, typed, "root")
 			if root.Kind == model.KStruct {
 				st.Wrap = rapid.SampledFrom([]string{"", "", "ptr", "ptrptr"}).Draw(rt, "wrap")
@@ -240,7 +263,7 @@ func genC19(rt *rapid.T, cfg model.GenCfg) c19Case {
 
 func TestC19(t *testing.T) {
 	h := hh.Start(t, "C19",
-		"cases = one schema (slice and primitive defaults, catch values, OneOf lists, Contains values, destination-mutating PostTransforms) and a history of 2-6 executions in both modes, some repeated verbatim; inputs are nested maps / slices, optionally behind one or two pointers; non-trivial = a slice default exists and an execution follows one whose destination was scribbled over, or the input holds nested maps/slices; distinct = FNV-1a of the case JSON",
+		"cases = one schema (slice and primitive defaults, catch values, OneOf lists, Contains values, destination-mutating PostTransforms) and a history of 2-6 executions in both modes, some repeated verbatim; inputs are nested maps / slices, optionally behind one or two pointers, or Go values of the destination's own type (same pointer, slice and struct types as the destination); non-trivial = a slice default exists and an execution follows one whose destination was scribbled over, or the input holds nested maps/slices; distinct = FNV-1a of the case JSON",
 		"invariants after every step: deep snapshot of the input unchanged; deep snapshots of every reference-typed value handed to the schema at construction unchanged, also after the harness overwrites every part of the returned destination (incl. spare slice capacity); a verbatim repeated execution gives the same issues and destination as the first time; Validate leaves the value unchanged when the schema has no Default, Catch or PostTransform",
 		"schema-owned values are observed through the references the harness keeps (slice defaults, OneOf lists); value-typed defaults cannot be aliased and are covered by the repeated-execution clause")
 	defer h.Finish()
